@@ -122,6 +122,8 @@ func (v *FnV) logCall(st *State, ci *callInfo, results []Value) {
 		fn = ci.fv
 	} else if ci.recv != nil && v.c.sortOf(ci.recv.T) == "Int" {
 		fn = ci.recv.S
+	} else if ci.recv != nil && isInterface(ci.recv.T) {
+		fn = sx("vint", ci.recv.S) // the dynamic (pointer) value of an interface receiver
 	}
 	set("lgF", fn)
 	idx := "(- 1)"
@@ -292,6 +294,7 @@ func (v *FnV) checkExits(ex Exit, psc *Scope, ord int) {
 			Desc: fmt.Sprintf("exit %s (at return #%d)", cl.Text, ord), Params: v.params, ParamTs: v.paramTs}
 		ob.SMT = v.script(st, val.S)
 		v.obligs = append(v.obligs, ob)
+		v.premiseCover(ex.st, cl, &sc, ob.Name)
 	}
 }
 
